@@ -526,3 +526,38 @@ S("syntax-benign-map-attrgetter-varnames", ["C09", "C08"], (TT,
   "        var_names = set().union(*[component.var_names for component in self.components])",
   "        var_names = set().union(*map(attrgetter(\"var_names\"), self.components))"),
   (TT, "from copy import deepcopy", "from copy import deepcopy\nfrom operator import attrgetter"))
+
+
+# ------------------------------------------------------------------ rules added in rounds 6 and 7 (DESIGN 7.16, 7.19)
+B("r7-tokens-dropped-before-tilde-count", "C01", "R1.9",
+  (SC, "        self.tokens.append(Token(\"EOF\", \"\"))\n", "        self.tokens.append(Token(\"EOF\", \"\"))\n        if is_tilde(self.tokens[0]):\n            self.tokens = self.tokens[1:]\n"))
+B("r7-formula-stripped-before-scanning", ["C01", "C12"], None,
+  (MD, "    description = Resolver(", "    formula = formula.strip()\n    description = Resolver("))
+B("r7-grouping-result-touched", ["C01", "C02"], None,
+  (RS, "        return expr.expression.accept(self)\n\n    def visitBinaryExpr", "        result = expr.expression.accept(self)\n        result.grouped = True\n        return result\n\n    def visitBinaryExpr"))
+B("r7-pow-exponent-ignored", ["C01", "C02"], None,
+  (TT, "            value = other.components[0].name\n            if isinstance(value, int) and value >= 1:\n                comb = [", "            value = other.components[0].name\n            comb = []\n            if isinstance(value, int) and value >= 1:\n                comb = ["))
+B("r7-treatment-falsy-reference", ["C04", "C16"], None,
+  (CT, "        if self.reference is None:\n            reference = 0", "        if not self.reference:\n            reference = 0"))
+B("r7-full-coding-reorders-levels", ["C04", "C15"], None,
+  (CT, "    def code_with_intercept(self, levels):\n        contrast = np.eye(len(levels), dtype=int)", "    def code_with_intercept(self, levels):\n        levels = sorted(levels)\n        contrast = np.eye(len(levels), dtype=int)"))
+B("r7-levels-setter-relaxed", "C04", "R4.2",
+  (CT, "        if value is not None and set(value) != set(self.data):  # pragma: no cover", "        if value is not None and set(value).isdisjoint(self.data):  # pragma: no cover"))
+B("r7-interaction-squeezed", ["C06", "C17"], None,
+  (UT, "    return np.column_stack(l)", "    return np.squeeze(np.column_stack(l))"))
+B("r7-namespaces-appended-in-place", "C07", "R7.2",
+  (EV, "        return self.__class__(self._namespaces + [outer_namespace])", "        self._namespaces.append(outer_namespace)\n        return self.__class__(self._namespaces)"))
+B("r7-callee-counted-as-variable", "C09", "R9.4",
+  (CU, "        return args + kwargs", "        return [expr.callee] + args + kwargs"))
+B("r7-resolver-falls-back-to-sys-modules", "C11", "R11.4",
+  (CR, "def get_function_from_module(name, env):\n", "def get_function_from_module(name, env):\n    import sys\n    try:\n        return env.namespace[name]\n    except KeyError:\n        if name in sys.modules:\n            return sys.modules[name]\n"))
+B("r7-literal-whole-float-to-int", "C12", "R12.9",
+  ("formulae/expr.py", "class Literal:\n    def __init__(self, value, lexeme=None):\n        self.value = value", "class Literal:\n    def __init__(self, value, lexeme=None):\n        if isinstance(value, float) and value.is_integer():\n            value = int(value)\n        self.value = value"))
+B("r7-offset-shortcut-return", "C16", "R16.3",
+  (CL, "    def eval_new_data_offset(self, data_mask):\n", "    def eval_new_data_offset(self, data_mask):\n        if self.value is not None and len(self.value) == len(data_mask.index):\n            return self.value\n"))
+B("r7-as-dataframe-casts", "C17", "R17.2",
+  (MX, "        data = pd.DataFrame(self.design_matrix, columns=list(flatten_list(colnames)))\n        return data", "        data = pd.DataFrame(self.design_matrix, columns=list(flatten_list(colnames)))\n        return data.astype(int)"))
+S("r7-benign-terms-view-alias", ["C17", "C07", "C10"],
+  (MX, "        new_instance = self.__class__(self.terms.values())\n        new_instance.data = data\n        new_instance.env = self.env\n\n        start = 0\n        matrices_to_stack = []\n        factors_with_new_levels = []\n\n        for term in self.terms.values():\n            term_matrix = term.eval_new_data(data)",
+   "        terms = self.terms.values()\n        old_slices = self.slices\n        new_instance = self.__class__(terms)\n        new_instance.data = data\n        new_instance.env = self.env\n\n        start = 0\n        matrices_to_stack = []\n        factors_with_new_levels = []\n\n        for term in terms:\n            term_matrix = term.eval_new_data(data)"),
+  (MX, "            slice_original = self.slices[term.name]\n", "            slice_original = old_slices[term.name]\n"))
